@@ -197,7 +197,7 @@ def gen_cases(seed, tier):
                 continue
             forced.pop(0)
         cases.append({"spec": spec, "rows": rows, "info": info, "k": len(rows[free[0]]), "free": free, "optional": optional,
-                      "seed": int(rng.integers(0, 2 ** 31)), "uservol": bool(rng.random() < 0.2)})
+                      "seed": int(rng.integers(0, 2 ** 31)), "uservol": bool(rng.random() < 0.2) or spec.get("op") in ("union", "cut")})
     # parameter variables with names of several characters (tau, shift): the declared sets hold names, not characters
     ren = {"t": "tau", "u": "shift"}
 
@@ -504,8 +504,12 @@ def run_case(case):
     if case.get("uservol") and len(free) >= 1 and not is_dep_product:
         try:
             D2 = geo.build(case["spec"])
-            D2.set_volume(7.25)
             v = free[0]
+            if case["seed"] % 2:
+                # the user volume as a function of the parameter that gets fixed (what the library's warnings recommend)
+                D2.set_volume(eval("lambda %s: 7.25 + 0.0 * %s" % (v, v)))
+            else:
+                D2.set_volume(7.25)
             Dp = D2(**{v: torch.tensor(env[v][:1].astype(np.float32))})
             rest = [w for w in free if w != v]
             got = float(np.asarray(Dp.volume(_params({w: env[w][:1] for w in rest})).detach().double().numpy()).reshape(-1)[0])
